@@ -259,6 +259,18 @@ func runJobs(c *vk.Ctx, jobs []Job) []JobResult {
 	return results
 }
 
+// runJobsQuiet runs jobs and only accounts executions; failures are left to the caller.
+func runJobsQuiet(c *vk.Ctx, jobs []Job) []JobResult {
+	sub := vk.NewCtx(c.Prop, c.Name)
+	sub.Args = c.Args
+	res := runJobs(sub, jobs)
+	c.Eval(sub.P.Evaluations)
+	c.P.TracesValidated += sub.P.TracesValidated
+	c.P.Transitions += sub.P.Transitions
+	c.P.States += sub.P.States
+	return res
+}
+
 func tail(s []string, n int) []string {
 	if len(s) > n {
 		return append([]string{fmt.Sprintf("... (%d earlier steps)", len(s)-n)}, s[len(s)-n:]...)
